@@ -13,7 +13,7 @@ REQUIRED_THEOREMS = ['Usid.C11.sides', 'Usid.C11.placeholder', 'Usid.C11.rows_co
                      'Usid.C11.position_side_end_to_end', 'Usid.C11.spectroscopic_side_end_to_end']
 RULE = ('generator datasets built with raw h5py (any storage order) AND datasets produced by the library\'s own writer in '
         'both ordering conventions, crossed with slicing dictionaries as in C07 (ints, slices, index lists on any '
-        'subset of dimensions) and with the wrapper\'s view (file order, sorted, toggled); the new dataset is read back with raw h5py and compared, coordinate by coordinate '
+        'subset of dimensions; every sixth case an IRREGULAR list that looks regular at first sight, on a long dimension or spread over two) and with the wrapper\'s view (file order, sorted, toggled); the new dataset is read back with raw h5py and compared, coordinate by coordinate '
         '(physical values of the remaining dimensions), with the source; non-trivial = a sliced side keeps >= 2 '
         'multi-valued dimensions')
 
@@ -36,6 +36,32 @@ def generate(seed, tier):
                 sd.append({'k': lab, 'v': gen_sel(rng, sz, rng.choice(['int', 'slice', 'list', 'list', 'full']))})
         if not sd:
             sd.append({'k': labs[0], 'v': gen_sel(rng, sizes[0], 'list')})
+        if i % 6 == 5:
+            # IRREGULAR index lists that look regular at first sight (first gap x (count - 1) = span), on a long
+            # dimension or spread over two dimensions, on the side with fewer / more selected elements
+            side = rng.choice(['pos', 'spec'])
+            pre = 'P' if side == 'pos' else 'S'
+            if rng.random() < 0.6:
+                long_size = rng.choice([7, 8, 9])
+                ds[side] = {'sizes': [long_size, 2], 'rate': rng.choice([[0, 1], [1, 0]]), 'labels': [pre + 'X', pre + 'Y'],
+                            'units': ['ua', 'ub'], 'values': [list(range(0, 4 * long_size, 4)), [3, 9]]}
+                tricky = [[0, 2, 3], [0, 2, 3, 6], [0, 2, 5, 6], [1, 3, 4], [0, 1, 3, 6], [0, 3, 4, 6], [1, 2, 5, 6]]
+                lst = rng.choice(tricky) if rng.random() < 0.7 else sorted(rng.sample(range(long_size), rng.randint(3, 5)))
+                sd = [{'k': pre + 'X', 'v': {'t': 'list', 'l': lst, 'as': rng.choice(['list', 'array'])}}]
+                if rng.random() < 0.3:
+                    sd.append({'k': pre + 'Y', 'v': {'t': 'int', 'i': rng.randrange(2)}})
+            else:
+                ds[side] = {'sizes': [4, 4], 'rate': rng.choice([[0, 1], [1, 0]]), 'labels': [pre + 'X', pre + 'Y'],
+                            'units': ['ua', 'ub'], 'values': [[0, 4, 8, 12], [1, 5, 9, 13]]}
+                a, b = rng.choice([([0, 3], [0, 1, 3]), ([0, 1, 3], [0, 3]), ([0, 3], [0, 2, 3]), ([1, 2], [0, 1, 3])])
+                sd = [{'k': pre + 'X', 'v': {'t': 'list', 'l': a, 'as': 'list'}},
+                      {'k': pre + 'Y', 'v': {'t': 'list', 'l': b, 'as': rng.choice(['list', 'array'])}}]
+            other = 'spec' if side == 'pos' else 'pos'
+            if gen.n_points(ds[other]) > 30 or rng.random() < 0.3:
+                ds[other] = {'sizes': [3], 'rate': [0], 'labels': [('S' if side == 'pos' else 'P') + 'X'], 'units': ['uc'],
+                             'values': [[1, 2, 7]]}
+            elif any(l in (pre + 'X', pre + 'Y') for l in ds[other]['labels']):
+                ds[other] = dict(ds[other], labels=[('S' if side == 'pos' else 'P') + 'Q%d' % d for d in range(len(ds[other]['labels']))])
         rng.shuffle(sd)
         cases.append({'ds': ds, 'sd': sd, 'source': rng.choice(['raw', 'raw', 'writer_f2s', 'writer_s2f']),
                       'view': rng.choice(['file', 'file', 'sorted', 'toggled'])})
